@@ -63,6 +63,15 @@ Conv1(dir, fl, s, n, st) ==
        Log("Conv1", [dir |-> dir, flavour |-> fl, size |-> s, n |-> n, st |-> st, buf |-> buf],
            [ret |-> 0, buf |-> Convert(fl, s, n, st, st, buf, buf)])
 
+\* DFKconvert in place with a source stride LARGER than the destination stride (elements gathered toward the front of
+\* their own buffer): element k is read at k*ss before anything is written at or beyond it, so the result is the one
+\* of a conversion between two buffers, laid over the original bytes
+Conv1g(dir, fl, s, n, ss, ds) ==
+    /\ ds >= s /\ ss > ds /\ n >= 1
+    /\ LET buf == SrcBuf(Span(n, s, ss) + 2) IN
+       Log("Conv1g", [dir |-> dir, flavour |-> fl, size |-> s, n |-> n, ss |-> ss, ds |-> ds, buf |-> buf],
+           [ret |-> 0, buf |-> Convert(fl, s, n, ss, ds, buf, buf)])
+
 \* every bit pattern of a range of values goes through the same byte permutation: the driver converts
 \* the whole range [lo16*65536, (hi16+1)*65536) (16-bit types: all 65536 values; 8-bit: all 256) in `mode`
 \* and reports the permutation it observed on a position-coded probe and whether every value obeyed it
@@ -72,6 +81,7 @@ Sweep(dir, fl, s, mode, blk) ==
 
 Next == \/ \E dir \in {"out", "in"}, fl \in Flavours, s \in Sizes, n \in Ns, ss \in Strides, ds \in Strides : Conv2(dir, fl, s, n, ss, ds)
         \/ \E dir \in {"out", "in"}, fl \in Flavours, s \in Sizes, n \in Ns, st \in Strides : Conv1(dir, fl, s, n, st)
+        \/ \E dir \in {"out", "in"}, fl \in Flavours, s \in Sizes, n \in Ns, ss \in Strides, ds \in Strides : Conv1g(dir, fl, s, n, ss, ds)
         \/ \E dir \in {"out", "in"}, fl \in Flavours, s \in Sizes, mode \in {"contig", "strided", "inplace"} : Sweep(dir, fl, s, mode, 0)
 Spec == Init /\ [][Next]_vars
 
@@ -86,6 +96,13 @@ InPlaceSame == \A fl \in Flavours, s \in Sizes, n \in Ns, st \in Strides : (st =
                      b == Convert(fl, s, n, st, 0, buf, DstBuf(n * s + 2)) IN
                    /\ \A k \in 0..(n - 1), j \in 1..s : a[k * Eff(st, s) + j] = b[k * s + j]
                    /\ \A p \in 1..Len(buf) : ((p - 1) % Eff(st, s) >= s \/ (p - 1) \div Eff(st, s) >= n) => a[p] = buf[p]
+\* gathering in place = converting between two buffers (element bytes), the rest of the buffer keeps its bytes
+GatherSame == \A fl \in Flavours, s \in Sizes, n \in Ns, ss \in Strides, ds \in Strides : (ds >= s /\ ss > ds) =>
+                 LET buf == SrcBuf(Span(n, s, ss) + 2)
+                     a == Convert(fl, s, n, ss, ds, buf, buf)
+                     b == Convert(fl, s, n, ss, 0, buf, DstBuf(n * s + 2)) IN
+                   /\ \A k \in 0..(n - 1), j \in 1..s : a[k * ds + j] = b[k * s + j]
+                   /\ \A p \in 1..Len(buf) : ((p - 1) % ds >= s \/ (p - 1) \div ds >= n) => a[p] = buf[p]
 \* the file image has the byte order the flavour designates: memory (host, little-endian) image reversed
 \* for the standard flavour, unchanged for little-endian and native
 FileOrder == \A s \in Sizes : LET v == [i \in 1..s |-> i]
